@@ -112,7 +112,8 @@ class ExprMixin:
 
     def branch(self, st, cond, label=''):
         """-> list of (state, bool) for the feasible sides of a z3 Bool"""
-        cond = z3.simplify(cond)
+        _c = z3.simplify(cond)
+        cond = cond if 'seq.nth_' in _c.sexpr() else _c       # keep terms cvc5 can read (seq.nth_i / seq.nth_u are z3-internal)
         if z3.is_true(cond):
             return [(st, True)]
         if z3.is_false(cond):
@@ -209,6 +210,11 @@ class ExprMixin:
 
     def ev_UnaryOp(self, e, st):
         def f(s, v):
+            hu = self.hooks.get('unaryop')
+            if hu:
+                r = hu(self, e.op, v, s, e)
+                if r is not None:
+                    return r
             if isinstance(e.op, ast.Not):
                 return [(s, VBool(z3.Not(self.truth(v))))]
             if isinstance(e.op, ast.USub):
@@ -538,6 +544,14 @@ class ExprMixin:
             c = self.src.class_const(v.cls, attr)
             if c is not None:
                 return [(st, self.class_const_value(v.cls, attr))]
+            # a field some method of the class assigns (e.g. one added by a change) but the contract's object layout does not
+            # name: an arbitrary value, fixed from the first read on (nothing is assumed about it)
+            _, cnode = self.src.classes.get(v.cls, (None, None))
+            if cnode is not None and any(isinstance(t, ast.Attribute) and t.attr == attr and isinstance(t.value, ast.Name) and t.value.id == 'self'
+                                         and isinstance(t.ctx, ast.Store) for t in ast.walk(cnode)):
+                if v.oid in st.heap:
+                    st.heap[v.oid][attr] = VOpaque(hint=f"field:{attr}")
+                    return [(st, st.heap[v.oid][attr])]
             raise Refuse(f"attribute {attr!r} of {v!r} not modelled (line {getattr(node, 'lineno', '?')}, {self.cur_key})")
         if isinstance(v, VOpaque):
             if attr in self.stable_opaque_attrs and not self.method_position.get(id(node)):
@@ -622,7 +636,11 @@ class ExprMixin:
             n = z3.If(b - a < 0, 0, b - a)
             if not z3.is_int_value(z3.simplify(b - a)) and self.known(st, b - a >= 0, True):
                 n = b - a
-            r = z3.SubString(v.t, z3.simplify(a), z3.simplify(n))
+            def simp(t):
+                # z3's simplifier rewrites seq.nth into internal seq.nth_i / seq.nth_u, which cvc5 cannot read: keep the original then
+                u = z3.simplify(t)
+                return t if 'seq.nth_' in u.sexpr() else u
+            r = z3.SubString(v.t, simp(a), simp(n))
             return [(st, VStr(r) if isinstance(v, VStr) else VSeq(r))]
         if isinstance(v, (VList, VTuple)):
             def c(x):
